@@ -15,6 +15,8 @@ mod par;
 mod report;
 mod rv;
 mod util;
+mod outcome;
+mod corpus;
 mod model {
     pub mod fold;
     pub mod list;
